@@ -384,14 +384,41 @@ def check_cell(cell):
                 lambda: rec.commit_patch(),
                 lambda: rec.discard_patch(),
             ]
+            # ... also through every record handle that navigation hands out
+            navs = {
+                "rec['/g'].file": lambda: rec["/g"].file,
+                "rec['/'].file": lambda: rec["/"].file,
+                "rec['/g'].parent.file": lambda: rec["/g"].parent.file,
+                "rec.attrs.file": lambda: getattr(rec.attrs, "file", None),
+                "rec.file": lambda: rec.file,
+            }
+            for nm, nav in navs.items():
+                try:
+                    h = nav()
+                except Exception:
+                    continue
+                if h is None:
+                    continue
+                muts += [
+                    (lambda h=h: h.create_patch()),
+                    (lambda h=h: h.__setitem__("/zn", 1)),
+                    (lambda h=h: h.__delitem__("/g")),
+                    (lambda h=h: h.discard_patch()),
+                    (lambda h=h: h.commit_patch()),
+                ]
             for i, m in enumerate(muts):
                 nchecks += 1
                 ok = _try(m)
                 if ok:
-                    return V("r-allows-mutation", f"mutation #{i} succeeded on a record opened with 'r'")
+                    return V("r-allows-mutation", f"mutation #{i} succeeded on a record opened with 'r'" + (" (through a navigated record handle)" if i >= 9 else ""))
+                if ih5lib.dir_hashes(d) != h0:
+                    return V("r-changed-files", f"mutation #{i} on a record opened with 'r' changed the files")
             if ih5lib.dump(rec) != expected:
                 return V("r-view-changed", "view changed by refused mutations")
-            rec.close()
+            try:
+                rec.close()
+            except Exception as e:
+                return V("r-close-raised", f"closing a record opened with 'r' raised {type(e).__name__}: {e}")
             rec = None
             if ih5lib.dir_hashes(d) != h0:
                 return V("r-changed-files", "files changed after using and closing a record opened with 'r'")
